@@ -188,8 +188,8 @@ def c11(tier):
                 "xs": walk(rnd, 150, 100, 1000, 60), "k": 1})
     for n in ((10, 16) if tier == "quick" else (10, 16, 20, 33)):
         for cfg in [{"k": "EhlersFisherTransform", "n": n, "c": [E, ema(4)]}, {"k": "PolarizedFractalEfficiency", "n": n, "c": [E, ema(5)]}]:
-            big.append({"cfg": cfg, "unit": 10, "mode": "full", "eps": [1, 100000000], "float": "f64",
-                        "xs": walk(rnd, 3 * n + 20, 100, 1000, 60), "k": 1})
+            big.append({"cfg": cfg, "unit": 10, "mode": "machine", "eps": [1, 100000000], "float": "f64",
+                        "xs": walk(rnd, 200 if tier == "quick" else 1000, 100, 1000, 60), "k": 1})
     run.submit(p3_stream_job, "ehlers-big", "C11", big)
     run.submit(p1_job, "laguerre", "MC_Def", {"prop": "C11", "cfgs": lag, "alphabet": [-2, 0, 1, 3], "unit": 1, "maxlen": 6 if tier == "quick" else 8})
     return run.finish(RULE_DEF)
